@@ -75,6 +75,12 @@ def build_case(rng, ncat, nnum, levels, terms_idx=None, exhaustive=False):
     for v in nums:
         # numeric factors incl. multi-column ones and one that itself spans the intercept (full B-spline basis)
         fexpr[v] = rng.choice([v, v, f"{{{v}*2}}", f"I({v}**3)", f"poly({v}, 2)", f"bs({v}, df=3)", f"bs({v}, df=4, include_intercept=True)"])
+    if cats and nums and rng.random() < 0.15:
+        # a data column whose name is another column's name followed by '-' (only referable through backticks)
+        odd = cats[0] + "-"
+        fexpr[odd] = f"`{odd}`"
+        del fexpr[nums[0]]
+        nums = [odd] + nums[1:]
     vars_ = cats + nums
     lattice = [list(c) for r in range(1, len(vars_) + 1) for c in itertools.combinations(vars_, r)]
     if terms_idx is None:
